@@ -374,20 +374,7 @@ def fold_iterator(ck: Checker, rule='C12.ITER'):
     sound = not probs
     ck.check(not probs, rule, um, fn, f'input_iterator_with_fixed_sum folded for n<=4, every weight, every negation mask (n<=3): each assignment of that weight exactly once, each a fresh object ({cases} cases)',
              '; '.join(probs[:3]), construct='input_iterator_with_fixed_sum enumeration')
-    # the three representations feed it the same arguments
-    users = 0
-    for modname, cname in ((TT, 'TruthTable'), (PF, 'PyFunction'), (CIRCUIT, 'Circuit')):
-        m = repo.mod(modname)
-        for meth in ('is_symmetric', 'is_symmetric_at'):
-            fn_ = m.func(f'{cname}.{meth}')
-            cs = [c for c in calls_in(fn_, 'input_iterator_with_fixed_sum')]
-            ok = len(cs) == 1 and [norm(a) for a in cs[0].args] == ['self.input_size', 'number_of_true'] and not cs[0].keywords
-            outer = [n_ for n_ in ast.walk(fn_) if isinstance(n_, ast.For) and norm(n_.target) == 'number_of_true']
-            ok = ok and len(outer) == 1 and norm(outer[0].iter) == 'range(self.input_size + 1)'
-            users += 1
-            ck.check(ok, rule, m, fn_, f'{cname}.{meth} enumerates every weight 0..input_size with input_iterator_with_fixed_sum(self.input_size, number_of_true)',
-                     'enumeration arguments changed', construct=f'{cname}.{meth} weight enumeration')
-    ck.floor(rule, 7)
+    ck.floor(rule, 1)
     return sound
 
 
